@@ -219,11 +219,11 @@ func rewriteRefs(m ast.Schemas, f func(kind string, pkg, name string, holderPkg 
 // ---- transformation descriptions --------------------------------------------------------
 
 type xform struct {
-	name  string
-	yaml  string                                  // one YAML list item (indented by 2), "" for library passes
-	lib   compiler.Pass                           // library pass (prefix, append comment)
-	model func(m ast.Schemas) (ast.Schemas, bool) // returns (result, expectError)
-	descr string
+	name   string
+	yaml   string                                  // one YAML list item (indented by 2), "" for library passes
+	lib    compiler.Pass                           // library pass (prefix, append comment)
+	model  func(m ast.Schemas) (ast.Schemas, bool) // returns (result, expectError)
+	descr  string
 	exotic string // non-empty: tagged class (kept out of the main key space)
 }
 
